@@ -32,6 +32,7 @@ func TestC01Step(t *testing.T) {
 // soupLockstep runs a soup case in lock-step against the model and returns the
 // first discrepancy of one of the given kinds.
 func soupLockstep(rig *lockRig, c *soupCase, kinds map[string]bool) (msg string, steps int, truncated bool, classes []string) {
+	rig.resync = true
 	rig.init(c.St, c.MemSeed, c.IOSeed, c.Fill, c.IOFill)
 	for i, b := range c.Code {
 		rig.poke(c.St.PC+uint16(i), uint8(b))
@@ -104,7 +105,7 @@ func TestC01Soup(t *testing.T) {
 	col.Sub = "soup"
 	defer finish(t, col)
 	col.Rule = "soup: byte strings of 1..24 implemented encodings with drawn operands (prefix forms, block repeats, relative jumps favoured) placed at PC over hashed / NOP-filled memory, " +
-		"run for up to 64 Steps in lock-step with the reference model and compared after every Step; a run ends without verdict where the model meets an encoding outside its table; " +
+		"run for up to 64 Steps in lock-step with the reference model and compared after every Step; where the model meets an encoding outside its table (one Step in a dozen is a drawn prefix + byte pair) it takes over the emulator's state and the comparison goes on; " +
 		"non-trivial = program of >= 2 executed Steps; distinct by hash(code, state)"
 	rig := newLockRig()
 	rapid.Check(t, func(t *rapid.T) {
@@ -112,10 +113,18 @@ func TestC01Soup(t *testing.T) {
 		if rapid.IntRange(0, 2).Draw(t, "intr?") == 0 {
 			genSoupIntr(t, &c, 2) // instructions must behave the same while a request is pending and refused
 		}
-		msg, steps, trunc, _ := soupLockstep(rig, &c, stepKinds["C01"])
+		msg, steps, trunc, classes := soupLockstep(rig, &c, stepKinds["C01"])
 		col.Eval(1)
 		if msg != "" {
 			violation(t, "C01", "soup", c, "reference model, every Step", msg)
+		}
+		for i, cl := range classes {
+			if cl == "(not judged)" {
+				col.Label("soup-steps-not-judged (model re-synchronised)")
+				if i+1 < len(classes) {
+					col.Label("soup-steps-judged-after-a-step-that-was-not")
+				}
+			}
 		}
 		col.LabelN("soup-steps", int64(steps))
 		if trunc {
